@@ -38,6 +38,8 @@ class C07(Prop):
     # one scheduled task per notification with the configured delay, handle appended, error of delay forwarded at
     # once; task bodies = one call on the operator's own slot; wiring of actual_subscribe pinned
     tie_modules = {
+        "RxModel.GenTie.TimeSources": ["subscribeon"],          # subscribe_on: one task, no delay; the task subscribes the source
+        "RxModel.GenTie.DelaySubscription": ["delaysub"],      # delay_subscription: the same task with the configured delay
         "RxModel.GenTie.Delay": ["delay"],
         "RxModel.GenTie.DelayThreads": ["delay"],
         "RxModel.GenTie.ObserveOn": ["observeon"],
